@@ -9,7 +9,10 @@ import (
 	"fmt"
 	"sort"
 	"strings"
+	"sync"
 	"time"
+
+	goheader "github.com/celestiaorg/go-header"
 
 	"github.com/libp2p/go-libp2p/core/crypto"
 
@@ -26,16 +29,43 @@ type placed struct {
 	genuine string // "h:<height>" / "d:<height>" for items signed by the genesis proposer, "" otherwise
 }
 
+// hstore: the part of a go-header store the P2P header loop reads (Height, GetByHeight)
+type hstore struct {
+	goheader.Store[*types.SignedHeader]
+	mu    sync.Mutex
+	base  uint64
+	items []*types.SignedHeader
+	gets  int
+}
+
+func (h *hstore) Height() uint64 {
+	h.mu.Lock()
+	defer h.mu.Unlock()
+	return h.base + uint64(len(h.items))
+}
+func (h *hstore) GetByHeight(_ context.Context, k uint64) (*types.SignedHeader, error) {
+	h.mu.Lock()
+	defer h.mu.Unlock()
+	h.gets++
+	if k <= h.base || k > h.base+uint64(len(h.items)) {
+		return nil, fmt.Errorf("header %d not in store", k)
+	}
+	return h.items[k-h.base-1], nil
+}
+
 type World struct {
-	c      *hx.Ctx
-	env    *bm.Env
-	da     *hx.DA
-	cancel context.CancelFunc
-	done   chan struct{}
-	placed []placed
-	logN   int
-	passed map[uint64]bool
-	lastC  uint64
+	c              *hx.Ctx
+	env            *bm.Env
+	da             *hx.DA
+	cancel         context.CancelFunc
+	done           chan struct{}
+	placed         []placed
+	logN           int
+	passed         map[uint64]bool
+	lastC          uint64
+	placedAndGiven [][]byte
+	hs             *hstore
+	genuine        map[string]bool // hashes of header blobs really signed with the proposer's key that the node was given
 }
 
 func (w *World) stop() {
@@ -162,7 +192,10 @@ func Run(c *hx.Ctx) {
 			ih, _ := o.U64("ih")
 			st, _ := o.U64("start")
 			w.da = hx.NewDA()
-			env, err := bm.New(bm.Options{InitialHeight: ih, GenesisTime: time.Unix(0, o.I64("gt")), Aggregator: false, DA: w.da, DAStart: st})
+			w.hs = &hstore{base: ih - 1}
+			w.genuine = map[string]bool{}
+			w.placedAndGiven = nil
+			env, err := bm.New(bm.Options{InitialHeight: ih, GenesisTime: time.Unix(0, o.I64("gt")), Aggregator: false, DA: w.da, DAStart: st, HeaderStore: w.hs})
 			if err != nil {
 				c.Emit("reset err")
 				continue
@@ -171,12 +204,56 @@ func Run(c *hx.Ctx) {
 			w.placed, w.logN, w.passed = nil, 0, map[uint64]bool{}
 			ctx, cancel := context.WithCancel(context.Background())
 			w.cancel, w.done = cancel, make(chan struct{})
-			go func(d chan struct{}) { defer close(d); env.M.RetrieveLoop(ctx) }(w.done)
+			go func(d chan struct{}) {
+				defer close(d)
+				var wg sync.WaitGroup
+				wg.Add(1)
+				go func() { defer wg.Done(); env.M.HeaderStoreRetrieveLoop(ctx) }()
+				env.M.RetrieveLoop(ctx)
+				wg.Wait()
+			}(w.done)
 			w.lastC = env.M.VerifDAHeight()
 			c.Emit("start cursor=%d", w.lastC)
+		case "seen":
+			// the header was applied earlier (through P2P): its hash is in the seen-set
+			var sh types.SignedHeader
+			if err := sh.UnmarshalBinary(o.Bytes("blob")); err != nil {
+				c.Emit("undecodable")
+				continue
+			}
+			w.env.M.HeaderCache().SetSeen(sh.Hash().String())
+			c.Emit("ok")
+		case "p2phdr":
+			// a header arriving through the P2P header store (what go-header hands over)
+			b := o.Bytes("blob")
+			sh := new(types.SignedHeader)
+			if err := sh.UnmarshalBinary(b); err != nil {
+				c.Emit("undecodable")
+				continue
+			}
+			w.note(b)
+			w.hs.mu.Lock()
+			w.hs.items = append(w.hs.items, sh)
+			want := w.hs.gets + 1
+			w.hs.mu.Unlock()
+			w.env.M.VerifHeaderStoreSignal()
+			for i := 0; i < 40000; i++ {
+				w.hs.mu.Lock()
+				g := w.hs.gets
+				w.hs.mu.Unlock()
+				if g >= want {
+					break
+				}
+				time.Sleep(50 * time.Microsecond)
+			}
+			time.Sleep(2 * time.Millisecond)
+			evs, hs, ds := w.drain()
+			c.Emit("p2p events=%s", evs)
+			w.checkAdmission(hs, ds)
 		case "place":
 			da, _ := o.U64("da")
 			b := o.Bytes("blob")
+			w.note(b)
 			w.da.Place(da, b)
 			w.placed = append(w.placed, placed{da, b, o.Str("genuine")})
 			c.Emit("ok")
@@ -189,6 +266,7 @@ func Run(c *hx.Ctx) {
 		case "blob":
 			b := o.Bytes("blob")
 			da, _ := o.U64("da")
+			w.note(b)
 			ret := "false"
 			func() {
 				defer func() {
@@ -440,13 +518,27 @@ func (w *World) checkScan(log []string, cursor uint64, hs []block.NewHeaderEvent
 	w.lastC = cursor
 }
 
+// note: remember which header hashes the node was given in a form really signed with the proposer's key
+func (w *World) note(b []byte) {
+	w.placedAndGiven = append(w.placedAndGiven, b)
+	var sh types.SignedHeader
+	if err := sh.UnmarshalBinary(b); err != nil || sh.Signer.PubKey == nil || !sh.Signer.PubKey.Equals(w.env.Pub) {
+		return
+	}
+	if bm.SigClass(w.env.Pub, &sh.Header, sh.Signature) == "valid" {
+		w.genuine[strings.ToLower(sh.Hash().String())] = true
+	}
+}
+
 // checkAdmission (C03): whatever is handed to sync / marked DA-included was signed with the proposer's key.
 func (w *World) checkAdmission(hs []block.NewHeaderEvent, ds []block.NewDataEvent) {
 	c := w.c
 	pub := w.env.Pub
 	for _, e := range hs {
 		sh := e.Header
-		if sh.Signer.PubKey == nil || !sh.Signer.PubKey.Equals(pub) {
+		if string(sh.ProposerAddress) != string(w.env.Gen.ProposerAddress) {
+			c.Report("C03/header/accepted-with-foreign-proposer-address", fmt.Sprintf("height %d", sh.Height()))
+		} else if sh.Signer.PubKey == nil || !sh.Signer.PubKey.Equals(pub) {
 			c.Report("C03/da-header/accepted-under-proposer-address-with-foreign-key", fmt.Sprintf("height %d", sh.Height()))
 		} else if bm.SigClass(pub, &sh.Header, sh.Signature) != "valid" {
 			c.Report("C03/da-header/accepted-without-valid-proposer-signature", fmt.Sprintf("height %d", sh.Height()))
@@ -454,6 +546,23 @@ func (w *World) checkAdmission(hs []block.NewHeaderEvent, ds []block.NewDataEven
 	}
 	for _, e := range ds {
 		_ = e // data events carry no signer; the signed blob is checked below through the marks
+	}
+	// a header is marked DA-included only on the strength of a blob that was admitted (today: self-consistent under the
+	// proposer's address); a mark for a hash of which only unsigned / garbage-signed copies were seen is a forgery
+	for h := range w.env.M.HeaderCache().VerifDAIncluded() {
+		if w.genuine[strings.ToLower(h)] {
+			continue
+		}
+		admitted := false
+		for _, p := range w.placedAndGiven {
+			var sh types.SignedHeader
+			if err := sh.UnmarshalBinary(p); err == nil && strings.EqualFold(sh.Hash().String(), h) && sh.ValidateBasic() == nil {
+				admitted = true
+			}
+		}
+		if !admitted {
+			c.Report("C03/da-header/marked-da-included-without-a-validly-signed-blob", "header hash "+h)
+		}
 	}
 	// marks: every mark must belong to a blob signed by the proposer
 	dm := w.env.M.DataCache().VerifDAIncluded()
@@ -478,7 +587,11 @@ func (w *World) checkAdmission(hs []block.NewHeaderEvent, ds []block.NewDataEven
 			}
 		}
 		if !other {
-			c.Report("C03/da-data/accepted-under-proposer-address-with-foreign-key", fmt.Sprintf("height %d", sd.Height()))
+			if string(sd.Signer.Address) != string(w.env.Gen.ProposerAddress) {
+				c.Report("C03/data/accepted-with-foreign-signer-address", fmt.Sprintf("height %d", dHeight(&sd.Data)))
+			} else {
+				c.Report("C03/da-data/accepted-under-proposer-address-with-foreign-key", fmt.Sprintf("height %d", dHeight(&sd.Data)))
+			}
 		}
 	}
 }
